@@ -30,8 +30,8 @@ CLAIMS["C29"] = {
 
 CLAIMS["C17"] = {
     "technique": _T + " (bit-precise IEEE-754): k-step unrolling of TokenBucket::take over symbolic times and capacity, every sub-window asserted",
-    "text": "For 8 concrete refill rates, every capacity <= 2^20 and every non-decreasing timeline of 3 (thorough: 4 and 5) requests with 64-bit millisecond timestamps, the solver shows that each sub-window admits at most capacity + rate * whole seconds and that the token count stays in [0, capacity]; plus the IPv4/IPv6 classifier behind the non-routable exemption for every address.",
-    "note": "Trusted: CBMC's floating-point encoding; 1e-9 relative slack in the f64 comparison. Outside: other rates, longer timelines, the HashMap/HashSet lookups of RateLimiter::limit (bypass list), backwards clocks (precondition established by Service::tick).",
+    "text": "For 8 concrete refill rates, every capacity <= 2^20 and every non-decreasing timeline of 3 (thorough: 4 and 5) requests with 64-bit millisecond timestamps, the solver shows that each sub-window admits at most capacity + rate * whole seconds and that the token count stays in [0, capacity]; plus the IPv4/IPv6 classifier behind the non-routable exemption for every address, and - on a shadow of limiter.rs with two-slot hash-container models - that a bypassed node or a non-routable address is never limited whatever request preceded it, while an ordinary request is limited exactly when the budget is spent.",
+    "note": "Trusted: CBMC's floating-point encoding; 1e-9 relative slack in the f64 comparison. Outside: other rates, longer timelines, more than one host / two nodes in RateLimiter::limit (hash containers are two-slot models there), backwards clocks (precondition established by Service::tick).",
 }
 
 CLAIMS["C24"] = {
